@@ -392,6 +392,33 @@ def run_pipeline(repo="/repo", workdir=None, keep=False, seed=0, extra_verus=(),
         for mf in meta["functions"]:
             for p_ in mf.get("stake", []):
                 fn_props.setdefault(mf["key"], set()).add(p_)
+        # implicit obligations (C17): Verus checks every machine-integer operation for overflow and every debug_assert!/
+        # cfg!(debug_assertions) arm in both profiles without any clause being written; the functions that contain them
+        # carry the property (so that demoting one of them leaves C17 undecided, and the evidence lists them)
+        srcs = {}
+        for mf in meta["functions"]:
+            if mf.get("external"):
+                continue
+            try:
+                if mf["file"] not in srcs:
+                    srcs[mf["file"]] = open(os.path.join(repo, mf["file"])).read().split("\n")
+                body = srcs[mf["file"]][mf["src_lines"][0] - 1: mf["src_lines"][1]]
+            except (OSError, KeyError, IndexError):
+                continue
+            open_at = next((i_ for i_, l in enumerate(body) if l.split("//")[0].rstrip().endswith("{")), 0)
+            body = body[open_at + 1:]            # the signature and where clause (`Q: Hash + Eq`) are not arithmetic
+            code = [re.sub(r'"(\\.|[^"\\])*"', '""', l.split("//")[0]) for l in body]
+            arith = [l.strip() for l in code if re.search(r"[\w\)\]]\s(\+|-|\*|/|%)=?\s[\w\(]|\s(\+|-|\*)=\s", l) and "->" not in l.replace("=>", "")]
+            dbg = [l.strip() for l in code if "debug_assert" in l or "cfg!(debug_assertions)" in l]
+            if arith or dbg:
+                fn_props.setdefault(mf["key"], set()).add("C17")
+                what = []
+                if arith:
+                    what.append("%d line(s) of machine arithmetic, e.g. `%s`" % (len(arith), arith[0][:80]))
+                if dbg:
+                    what.append("%d debug-only assertion(s)/cfg arm(s)" % len(dbg))
+                prop_clauses.setdefault("C17", []).append({"name": "implicit.overflow_and_debug_only", "fn": mf["key"], "line": 0,
+                                                           "text": "implicit obligations checked in both profiles: " + "; ".join(what)})
         res["fn_props"] = {k: sorted(v) for k, v in fn_props.items()}
         res["prop_clauses"] = prop_clauses
         # identity
